@@ -91,7 +91,7 @@ pub fn cfg_from(ch: &mut Chooser, thorough: bool) -> Cfg {
     let family = ch.choose("program_family", FAMILIES.len());
     let nhosts = 1 + ch.choose("hosts", 5);
     let script = ch.choose("controller_script", SCRIPTS.len());
-    let seeds: &[u64] = &[1, 2, 0x9e37_79b9_7f4a_7c15, 0];
+    let seeds: &[u64] = &[1, 0, 0x9e37_79b9_7f4a_7c15, 2];
     Cfg {
         family,
         nhosts,
@@ -355,6 +355,15 @@ async fn prog_fs(l: Log, me: usize, _n: usize, _v6: bool) -> turmoil::Result {
             log(&l, &name, format!("read {nme} {:?}", r.map_err(|e| errk(&e))));
             let m = fs::metadata(format!("/d/{nme}")).and_then(|m| m.modified());
             log(&l, &name, format!("mtime {nme} {:?}", m.map(|t| t.duration_since(SystemTime::UNIX_EPOCH).unwrap_or_default()).map_err(|e| errk(&e))));
+        }
+        // a misaligned O_DIRECT request: the complete error (kind and text) is a result too
+        if k % 3 == 1 {
+            use std::os::unix::fs::{FileExt, OpenOptionsExt};
+            let r = fs::OpenOptions::new().read(true).write(true).create(true).custom_flags(0x4000).open("/d/direct").and_then(|f| {
+                let mut b = vec![0u8; 100];
+                f.read_at(&mut b, 700)
+            });
+            log(&l, &name, format!("misaligned direct read {:?}", r.map_err(|e| format!("{:?}: {e}", e.kind()))));
         }
         // io_uring: a batch of writes / reads / fsync, completion order is observable
         if let Ok(file) = fs::OpenOptions::new().read(true).write(true).create(true).open("/d/ring") {
